@@ -1,15 +1,27 @@
 (* C01 - No value is created from nothing (conservation of every denomination).
-   Pinned statements only; proofs in STF/Proofs/Supply.v, STF/Proofs/Pool.v, STF/Proofs/Coins.v.
+   Pinned statements only; proofs in STF/Proofs/{Supply,BatchSupply,SealSupply,Pool,Coins}.v.
 
-   FULL STATEMENT wanted by the property (kept visible):
+   FULL STATEMENT wanted by the property:
      for every accepted batch and every seal, for every denomination d,
        supply d after <= supply d before + issuance d (faucet outputs and fees off mainnet, a transaction's own
        new token, ERG of valid mints within their reward, liquidity tokens minted against deposits, the TIP-909
        subsidy, the peg nudge, the one-off bootstrap of the built-in pools).
-   That inequality is evaluated by the model (Cases/Reflect.v, [supply], [batch_issuance], [seal_issuance]) on
-   the real before/after states of every accepted batch and every seal of the stf stream.  What is PROVED for
-   all inputs are the facts it rests on: *)
-From MelVerif Require Import STF.Model STF.Proofs.MapLemmas STF.Proofs.Faucet STF.Proofs.Coins STF.Proofs.Supply STF.Proofs.Pool.
+   PROVED for all inputs:
+     - the batch half in full ([C01_batch_supply]: coins + fee pool + tips, pools untouched), under the
+       hash-oracle assumptions [HashOK] (distinct transactions have distinct hashes, new hashes are new,
+       faucet markers are not coin ids) - see STF/Proofs/HashFacts.v;
+     - the seal half one pool and one phase at a time ([C01_swaps_conserve], [C01_withdrawals_conserve],
+       [C01_deposits_conserve]: reserve + coins of each side never grows, liquidity tokens move with the
+       recorded liquidity), for request coins that are as declared and sums below 2^128.
+     - and the three settlement phases of a block together, over all pools ([C01_settlement]): for every
+       denomination d, coins + reserves after, plus the liquidity recorded before by the pools whose token is d,
+       is at most coins + reserves before plus the liquidity recorded after ([settles]); so a denomination
+       that is no pool's liquidity token never grows ([C01_settlement_conserves]).
+   NOT proved (evaluated by the model on the real before/after states of every seal of the stf stream,
+   Cases/Reflect.v [supply], [seal_issuance]): the explicit issuance of the remaining seal steps (bootstrap of
+   the built-in pools, peg nudge, TIP-909 subsidy) and the proposer reward in one inequality with the above. *)
+From MelVerif Require Import STF.Model STF.Proofs.MapLemmas STF.Proofs.Faucet STF.Proofs.Coins STF.Proofs.Supply STF.Proofs.Pool
+  STF.Proofs.SealCoins STF.Proofs.HashFacts STF.Proofs.BatchSupply STF.Proofs.SealSupply STF.Proofs.SealLift STF.Proofs.Witness2 STF.Proofs.Witness3 STF.Proofs.Witness.
 Open Scope N_scope.
 
 (* every accepted non-faucet transaction is balanced denomination by denomination: outputs plus fee equal the
@@ -65,3 +77,154 @@ Theorem C01_shares_within_total : forall (vs : list N) x T,
   x < U128 -> nsum vs <= T -> nsum (map (fun v => multiply_ratio x v T) vs) <= x.
 Proof. exact prorata_sum_le. Qed.
 Print Assumptions C01_shares_within_total.
+
+(* ---- the whole batch: coins + fee pool + tips of every denomination grow by at most the explicit issuance
+   (everything a faucet declares, a transaction's own new token, the ERG outputs of a mint - bounded by the
+   reward formula in C18); the pools are not touched by a batch *)
+Theorem C01_batch_supply : forall SO s lh txs s',
+  apply_tx_batch SO s lh txs = Ok s' -> HashOK SO s txs ->
+  forall d, d <> NewCustom ->
+  coin_supply d (s_coins s') + fee_part d (s_fee_pool s' + s_tips s')
+  <= coin_supply d (s_coins s) + fee_part d (s_fee_pool s + s_tips s) + batch_issuance d txs.
+Proof. exact accepted_batch_supply_hash. Qed.
+Print Assumptions C01_batch_supply.
+
+Theorem C01_batch_leaves_pools : forall SO s lh txs s', apply_tx_batch SO s lh txs = Ok s' -> s_pools s' = s_pools s.
+Proof. exact accepted_batch_pools. Qed.
+Print Assumptions C01_batch_leaves_pools.
+
+(* the hypotheses hold together on a concrete batch (two faucets, and a transfer that spends one of them
+   inside the batch and creates its own token) *)
+Example C01_batch_witness :
+  HashOK w_oracle w_state w_batch /\ exists s', apply_tx_batch w_oracle w_state w_header w_batch = Ok s'.
+Proof. split; [exact w_hash_ok|exact w_accepted]. Qed.
+
+(* ---- sealing, one pool and one phase at a time: [side d k p] is what pool k holds of denomination d *)
+Theorem C01_swaps_conserve : forall k, fst k <> snd k -> forall s swaps s',
+  swaps_single_pool k s swaps = Ok s' ->
+  NoDup (map key0 swaps) ->
+  (forall t, In t swaps -> declared0 s t /\ (cd_denom (out0 t) = fst k \/ cd_denom (out0 t) = snd k)) ->
+  nsum (map (fun t => cd_value (out0 t)) swaps) < U128 ->
+  exists p p', get_pool s k = Some p /\ s_pools s' = <[poolkey_code k := p']> (s_pools s) /\
+    p_liqs p' = p_liqs p /\
+    forall d, coin_supply d (s_coins s') + side d k p' <= coin_supply d (s_coins s) + side d k p.
+Proof. exact swaps_single_pool_conserves. Qed.
+Print Assumptions C01_swaps_conserve.
+
+Theorem C01_withdrawals_conserve : forall SO k,
+  Custom (so_liq_denom SO (poolkey_code k)) <> fst k -> Custom (so_liq_denom SO (poolkey_code k)) <> snd k ->
+  forall s ws s' p,
+  withdrawals_single_pool k s ws = Ok s' ->
+  get_pool s k = Some p -> p_lefts p < U128 -> p_rights p < U128 ->
+  NoDup (flat_map (fun t => [key0 t; key1 t]) ws) ->
+  (forall t, In t ws -> declared0 s t /\ cd_denom (out0 t) = Custom (so_liq_denom SO (poolkey_code k))) ->
+  nsum (map (fun t => cd_value (out0 t)) ws) < U128 ->
+  exists p', ((s' = s /\ p' = p) \/ s_pools s' = <[poolkey_code k := p']> (s_pools s)) /\
+    (forall d, d <> Custom (so_liq_denom SO (poolkey_code k)) ->
+       coin_supply d (s_coins s') + side d k p' <= coin_supply d (s_coins s) + side d k p) /\
+    coin_supply (Custom (so_liq_denom SO (poolkey_code k))) (s_coins s') + p_liqs p
+    <= coin_supply (Custom (so_liq_denom SO (poolkey_code k))) (s_coins s) + p_liqs p'.
+Proof. exact withdrawals_single_pool_conserves. Qed.
+Print Assumptions C01_withdrawals_conserve.
+
+Theorem C01_deposits_conserve : forall SO k,
+  Custom (so_liq_denom SO (poolkey_code k)) <> fst k -> Custom (so_liq_denom SO (poolkey_code k)) <> snd k ->
+  forall s deps s',
+  deposits_single_pool SO k s deps = Ok s' ->
+  legacy_net s && (s_height s <? 978392) = false ->
+  NoDup (key_pairs deps) ->
+  (forall t, In t deps -> declared0 s t /\ declared1 s t /\ cd_denom (out0 t) = fst k /\ cd_denom (out1 t) = snd k) ->
+  nsum (map (fun t => cd_value (out0 t)) deps) < U128 -> nsum (map (fun t => cd_value (out1 t)) deps) < U128 ->
+  let p := match get_pool s k with Some p => p | None => new_empty_pool end in
+  (forall p'' m, pool_deposit p (nsum (map (fun t => cd_value (out0 t)) deps)) (nsum (map (fun t => cd_value (out1 t)) deps)) = Ok (p'', m) ->
+                 p_liqs p + m < U128) ->
+  exists p', s_pools s' = <[poolkey_code k := p']> (s_pools s) /\
+    (forall d, d <> Custom (so_liq_denom SO (poolkey_code k)) ->
+       coin_supply d (s_coins s') + side d k p' <= coin_supply d (s_coins s) + side d k p) /\
+    coin_supply (Custom (so_liq_denom SO (poolkey_code k))) (s_coins s') + p_liqs p
+    <= coin_supply (Custom (so_liq_denom SO (poolkey_code k))) (s_coins s) + p_liqs p'.
+Proof. exact deposits_single_pool_conserves. Qed.
+Print Assumptions C01_deposits_conserve.
+
+(* the hypotheses of the settlement theorems hold together on a concrete pool (STF/Proofs/Witness2.v) *)
+Example C01_swap_witness :
+  (exists s', swaps_single_pool w_key w_seal_state [w_swap] = Ok s') /\
+  NoDup (map key0 [w_swap]) /\
+  (forall t, In t [w_swap] -> declared0 w_seal_state t /\ (cd_denom (out0 t) = fst w_key \/ cd_denom (out0 t) = snd w_key)) /\
+  nsum (map (fun t => cd_value (out0 t)) [w_swap]) < U128.
+Proof. exact w_swap_ok. Qed.
+Example C01_withdraw_witness :
+  (exists s', withdrawals_single_pool w_key w_seal_state [w_wd] = Ok s') /\
+  get_pool w_seal_state w_key = Some w_pool /\ p_lefts w_pool < U128 /\ p_rights w_pool < U128 /\
+  NoDup (flat_map (fun t => [key0 t; key1 t]) [w_wd]) /\
+  (forall t, In t [w_wd] -> declared0 w_seal_state t /\ cd_denom (out0 t) = w_liq) /\
+  nsum (map (fun t => cd_value (out0 t)) [w_wd]) < U128.
+Proof. exact w_withdraw_ok. Qed.
+Example C01_deposit_witness :
+  (exists s', deposits_single_pool w_oracle w_key w_seal_state [w_dep] = Ok s') /\
+  legacy_net w_seal_state && (s_height w_seal_state <? 978392) = false /\
+  NoDup (key_pairs [w_dep]) /\
+  (forall t, In t [w_dep] -> declared0 w_seal_state t /\ declared1 w_seal_state t /\ cd_denom (out0 t) = fst w_key /\ cd_denom (out1 t) = snd w_key) /\
+  nsum (map (fun t => cd_value (out0 t)) [w_dep]) < U128 /\ nsum (map (fun t => cd_value (out1 t)) [w_dep]) < U128 /\
+  (forall p'' m, pool_deposit w_pool (nsum (map (fun t => cd_value (out0 t)) [w_dep])) (nsum (map (fun t => cd_value (out1 t)) [w_dep])) = Ok (p'', m) ->
+                 p_liqs w_pool + m < U128).
+Proof. exact w_deposit_ok. Qed.
+
+(* ---- the three settlement phases of a block, all pools.  K is any list of pool names with pairwise different
+   codes that contains every pool a request of the block names; [psum K d s] is what those pools hold of d,
+   [liq_of K SO d s] the liquidity recorded by those whose token is d, and
+   [settles K SO d s s'] := coin_supply d s' + psum d s' + liq_of d s <= coin_supply d s + psum d s + liq_of d s' *)
+Theorem C01_settlement : forall K, NoDup (map poolkey_code K) -> forall SO s1 s2 s3 s4,
+  process_swaps s1 = Ok s2 -> process_deposits SO s2 = Ok s3 -> process_withdrawals SO s3 = Ok s4 ->
+  legacy_net s1 && (s_height s1 <? 978392) = false ->
+  (forall t k, In t (sorted_txs s1) -> tx_pool t = Some k -> In k K /\ LDk SO k <> fst k /\ LDk SO k <> snd k) ->
+  NoDup (key_pairs (sorted_txs s1)) ->
+  (forall t c, In t (sorted_txs s1) -> s_coins s1 !! key0 t = Some c -> as_declared c (out0 t)) ->
+  (forall t c, In t (sorted_txs s1) -> s_coins s1 !! key1 t = Some c -> as_declared c (out1 t)) ->
+  nsum (map (fun t => cd_value (out0 t)) (sorted_txs s1)) < U128 ->
+  nsum (map (fun t => cd_value (out1 t)) (sorted_txs s1)) < U128 ->
+  (forall k p'' m, In k K ->
+     pool_deposit (pool_at s2 k)
+       (nsum (map (fun t => cd_value (out0 t)) (txs_for_pool (List.filter (is_deposit_request s2) (sorted_txs s2)) k)))
+       (nsum (map (fun t => cd_value (out1 t)) (txs_for_pool (List.filter (is_deposit_request s2) (sorted_txs s2)) k))) = Ok (p'', m) ->
+     p_liqs (pool_at s2 k) + m < U128) ->
+  (forall k p, In k K -> get_pool s3 k = Some p -> p_lefts p < U128 /\ p_rights p < U128) ->
+  forall d, settles K SO d s1 s4.
+Proof. exact settlement_settles. Qed.
+Print Assumptions C01_settlement.
+
+Theorem C01_settlement_conserves : forall K SO d s s',
+  settles K SO d s s' -> liq_of K SO d s' = 0 ->
+  coin_supply d (s_coins s') + psum K d s' <= coin_supply d (s_coins s) + psum K d s.
+Proof. exact settles_conserved. Qed.
+Print Assumptions C01_settlement_conserves.
+
+(* all hypotheses of [C01_settlement] hold on a concrete block with a swap, a deposit and a withdrawal *)
+Example C01_settlement_witness : NoDup (map poolkey_code w_K) /\ exists s2 s3 s4,
+    process_swaps w_block_state = Ok s2 /\ process_deposits w_oracle s2 = Ok s3 /\ process_withdrawals w_oracle s3 = Ok s4.
+Proof. destruct w_settlement as (H & s2 & s3 & s4 & A & B & C & _). split; [exact H|]. exists s2, s3, s4. auto. Qed.
+
+(* ---- a whole seal (bootstrap of the built-in pools, the three settlement phases, peg, TIP-909 subsidy,
+   proposer reward), for every custom denomination - tokens created by transactions and the pools' liquidity
+   tokens: coins + reserves, against the liquidity recorded by the pools whose token it is, never grow.
+   (MEL, SYM and ERG are subject to the explicit issuance of the peg, the subsidy and the bootstrap.) *)
+Theorem C01_seal_custom_denominations : forall K, NoDup (map poolkey_code K) -> forall SO, In MS K /\ In ME K /\ In ES K ->
+  forall s a s' h,
+  seal SO s a = Ok s' ->
+  legacy_net s && (s_height s <? 978392) = false ->
+  (forall t k, In t (sorted_txs s) -> tx_pool t = Some k -> In k K /\ LDk SO k <> fst k /\ LDk SO k <> snd k) ->
+  NoDup (key_pairs (sorted_txs s)) ->
+  (forall t c, In t (sorted_txs s) -> s_coins s !! key0 t = Some c -> as_declared c (out0 t)) ->
+  (forall t c, In t (sorted_txs s) -> s_coins s !! key1 t = Some c -> as_declared c (out1 t)) ->
+  nsum (map (fun t => cd_value (out0 t)) (sorted_txs s)) < U128 ->
+  nsum (map (fun t => cd_value (out1 t)) (sorted_txs s)) < U128 ->
+  (forall s2 s3, process_swaps (create_builtins s) = Ok s2 -> process_deposits SO s2 = Ok s3 ->
+     (forall k p'' m, In k K ->
+        pool_deposit (pool_at s2 k)
+          (nsum (map (fun t => cd_value (out0 t)) (txs_for_pool (List.filter (is_deposit_request s2) (sorted_txs s2)) k)))
+          (nsum (map (fun t => cd_value (out1 t)) (txs_for_pool (List.filter (is_deposit_request s2) (sorted_txs s2)) k))) = Ok (p'', m) ->
+        p_liqs (pool_at s2 k) + m < U128) /\
+     (forall k p, In k K -> get_pool s3 k = Some p -> p_lefts p < U128 /\ p_rights p < U128)) ->
+  settles K SO (Custom h) s s'.
+Proof. exact seal_settles_custom. Qed.
+Print Assumptions C01_seal_custom_denominations.
